@@ -36,10 +36,12 @@
 (*   nn   T: default_nested_message [p, a, fl, ts, uk]: a = .a, and inside *)
 (*        .corecursive (present iff p): fl = default_float, ts =           *)
 (*        default_well_known.default_timestamp (well_known present iff has)*)
-(*        uk = unknown field 1000 of .corecursive                          *)
+(*        uk = unknown fields of .corecursive                              *)
 (*   u    T: oneof_default [k, ui, una]                                     *)
-(*   unk  unknown fields: a = varint value of unknown field 1000 (0 none), *)
-(*        b = 1 iff unknown field 1001 present, swap = wire order swapped  *)
+(*   unk  unknown fields of the message, in wire order: a sequence of     *)
+(*        entries 10*n + v = varint v (1..3) under unknown field number    *)
+(*        1000 + n (n = 0, 1); one number may occur several times.  The    *)
+(*        nested uk fields are such sequences too.                         *)
 (*   ch   P: changes, each a message *named Change* [nm, ct, on, uk]:      *)
 (*        name, change_time [has, t], on_off (0 unset, 1 ON, 2 OFF)        *)
 (*   act  A: change_time [has, t] of a message NOT named Change            *)
@@ -82,13 +84,18 @@ SomeF(a) == [has |-> TRUE, v |-> a]
 NoT == [has |-> FALSE, t |-> 0, e |-> 0]
 SomeT(t) == [has |-> TRUE, t |-> t, e |-> 0]
 FarT(t, e) == [has |-> TRUE, t |-> t, e |-> e]
-\* uk = varint value of unknown field 1000 carried by the NESTED message itself (0 = none)
-NoWK == [p |-> FALSE, ts |-> NoT, du |-> NoT, uk |-> 0]
-WK(ts, du) == [p |-> TRUE, ts |-> ts, du |-> du, uk |-> 0]
+\* uk = unknown fields carried by the NESTED message itself (a layout as described for unk)
+NoWK == [p |-> FALSE, ts |-> NoT, du |-> NoT, uk |-> <<>>]
+WK(ts, du) == [p |-> TRUE, ts |-> ts, du |-> du, uk |-> <<>>]
 WKu(ts, du, uk) == [p |-> TRUE, ts |-> ts, du |-> du, uk |-> uk]
-NoNN == [p |-> FALSE, a |-> 0, fl |-> F0, ts |-> NoT, uk |-> 0]
+NoNN == [p |-> FALSE, a |-> 0, fl |-> F0, ts |-> NoT, uk |-> <<>>]
 NoU == [k |-> 0, ui |-> 0, una |-> 0]
-NoUnk == [a |-> 0, b |-> 0, swap |-> FALSE]
+NoUnk == <<>>
+\* Unknown fields (proto.Equal): for every field number, the values carried under that number, in
+\* their wire order, are the same on both sides; how different numbers interleave does not matter.
+UnkSel(s, n) == SelectSeq(s, LAMBDA e : e \div 10 = n)
+UnkNorm(s) == <<UnkSel(s, 0), UnkSel(s, 1)>>
+UnkEq(s, t) == UnkNorm(s) = UnkNorm(t)
 NoMF == [k1 |-> NoOF, k2 |-> NoOF]
 
 Empty(ty) == [ty |-> ty, i |-> 0, s |-> 0, fl |-> F0, db |-> F0, of |-> NoOF, rd |-> <<>>, mf |-> NoMF,
@@ -139,11 +146,11 @@ SeqEq(s, t, E(_, _)) == Len(s) = Len(t) /\ \A k \in 1..Len(s) : E(s[k], t[k])
 ImplEq(a, b, FE(_, _), fapp, iz) ==
   IF fapp /\ iz THEN FE(a, b)
   ELSE ((a = F0) = (b = F0)) /\ FE(a, b)
-WkEq(a, b, TE(_, _), DE(_, _)) == a.p = b.p /\ a.uk = b.uk /\ OptTEq(a.ts, b.ts, TE) /\ OptTEq(a.du, b.du, DE)
+WkEq(a, b, TE(_, _), DE(_, _)) == a.p = b.p /\ UnkEq(a.uk, b.uk) /\ OptTEq(a.ts, b.ts, TE) /\ OptTEq(a.du, b.du, DE)
 \* change_time inside a message named Change is ignored.  Present on one side
 \* only: unequal here (this is what proto.Equal's set-of-populated-fields rule
 \* gives); the property does not settle that case and Trace does not assert it.
-ChEq(a, b) == a.nm = b.nm /\ a.on = b.on /\ a.uk = b.uk /\ a.ct.has = b.ct.has
+ChEq(a, b) == a.nm = b.nm /\ a.on = b.on /\ UnkEq(a.uk, b.uk) /\ a.ct.has = b.ct.has
 
 MsgEq(x, y, FE(_, _), fapp, iz, TE(_, _), DE(_, _)) ==
   IF x.ty = "nil" \/ y.ty = "nil" THEN x.ty = y.ty
@@ -157,8 +164,8 @@ MsgEq(x, y, FE(_, _), fapp, iz, TE(_, _), DE(_, _)) ==
     /\ WkEq(x.wk, y.wk, TE, DE)
     /\ SeqEq(x.rw, y.rw, LAMBDA a, b : WkEq(a, b, TE, DE))
     /\ WkEq(x.mw, y.mw, TE, DE)
-    /\ x.nn.p = y.nn.p /\ x.nn.a = y.nn.a /\ x.nn.uk = y.nn.uk /\ ImplEq(x.nn.fl, y.nn.fl, FE, fapp, iz) /\ OptTEq(x.nn.ts, y.nn.ts, TE)
-    /\ x.unk.a = y.unk.a /\ x.unk.b = y.unk.b
+    /\ x.nn.p = y.nn.p /\ x.nn.a = y.nn.a /\ UnkEq(x.nn.uk, y.nn.uk) /\ ImplEq(x.nn.fl, y.nn.fl, FE, fapp, iz) /\ OptTEq(x.nn.ts, y.nn.ts, TE)
+    /\ UnkEq(x.unk, y.unk)
     /\ SeqEq(x.ch, y.ch, ChEq)
     /\ OptTEq(x.act, y.act, TE)
 
@@ -170,8 +177,10 @@ NormF(a) == IF a.k = "nz" THEN F0 ELSE a          \* where a value is compared w
 Norm(x) == [x EXCEPT !.of = [@ EXCEPT !.v = NormF(@)],
                      !.rd = [k \in 1..Len(@) |-> NormF(@[k])],
                      !.mf = [k1 |-> [@.k1 EXCEPT !.v = NormF(@)], k2 |-> [@.k2 EXCEPT !.v = NormF(@)]],
-                     !.unk = [@ EXCEPT !.swap = FALSE],
-                     !.ch = [k \in 1..Len(@) |-> [@[k] EXCEPT !.ct = [@ EXCEPT !.t = 0, !.e = 0]]]]
+                     !.unk = UnkNorm(@),
+                     !.wk = [@ EXCEPT !.uk = UnkNorm(@)], !.mw = [@ EXCEPT !.uk = UnkNorm(@)], !.nn = [@ EXCEPT !.uk = UnkNorm(@)],
+                     !.rw = [k \in 1..Len(@) |-> [@[k] EXCEPT !.uk = UnkNorm(@)]],
+                     !.ch = [k \in 1..Len(@) |-> [@[k] EXCEPT !.ct = [@ EXCEPT !.t = 0, !.e = 0], !.uk = UnkNorm(@)]]]
 
 ----------------------------------------------------------------------------
 (* (b) tolerance comparers: partial functions (leaf kind, a, b) -> [ok, eq]*)
@@ -273,11 +282,20 @@ GFarT == {FarT(0, -1), FarT(1, -1), FarT(0, 1), FarT(0, 2), FarT(0, -2)}      \*
 GOT == {NoT} \cup { SomeT(t) : t \in GTv } \cup GFarT
 GWK == {NoWK, WK(NoT, NoT), WK(SomeT(0), NoT), WK(SomeT(5), SomeT(2)), WK(SomeT(6), SomeT(2)), WK(SomeT(5), SomeT(-3)),
         WK(NoT, SomeT(0)), WK(NoT, SomeT(5)), WK(SomeT(12), SomeT(6)),
-        WKu(SomeT(5), SomeT(2), 1), WKu(SomeT(5), SomeT(2), 2), WKu(NoT, NoT, 1),
+        WKu(SomeT(5), SomeT(2), <<1>>), WKu(SomeT(5), SomeT(2), <<2>>), WKu(NoT, NoT, <<1>>),
+        \* one unknown number occurring twice / three times, differing in the first, middle, last occurrence
+        WKu(SomeT(5), SomeT(2), <<1, 2>>), WKu(SomeT(5), SomeT(2), <<3, 2>>), WKu(SomeT(5), SomeT(2), <<1, 11, 2>>),
+        WKu(SomeT(5), SomeT(2), <<3, 11, 2>>), WKu(SomeT(5), SomeT(2), <<11, 1, 2>>),
         \* extreme instants and durations (MaxInt64 / MinInt64 ns and their neighbours)
         WK(FarT(0, -1), SomeT(2)), WK(FarT(0, 1), SomeT(2)), WK(FarT(0, 2), FarT(12, 1)), WK(FarT(0, -2), FarT(-12, -1)),
         WK(SomeT(5), FarT(12, 1)), WK(SomeT(5), FarT(11, 1)), WK(SomeT(5), FarT(-12, -1)), WK(FarT(1, -1), FarT(-11, -1))}
 GWKp == { w \in GWK : w.p }
+\* unknown-field layouts: absent, single, two numbers in both wire orders, one number occurring 2-3
+\* times differing in the first / middle / last occurrence or only in order, interleaved with the other
+GUnk == {<<>>, <<1>>, <<2>>, <<11>>, <<1, 11>>, <<11, 1>>,
+         <<1, 2>>, <<3, 2>>, <<1, 3>>, <<2, 1>>,
+         <<1, 2, 3>>, <<2, 2, 3>>, <<1, 1, 3>>, <<1, 2, 2>>,
+         <<1, 11, 2>>, <<3, 11, 2>>, <<11, 1, 2>>, <<1, 2, 11>>, <<1, 12, 2>>}
 G(f) ==
   CASE f = "i"  -> 0..2
     [] f = "s"  -> 0..1
@@ -290,23 +308,23 @@ G(f) ==
                     [k1 |-> SomeF(Fin(9)), k2 |-> SomeF(Fin(-8))], [k1 |-> SomeF(Fin(8)), k2 |-> SomeF(Fin(-8))],
                     [k1 |-> SomeF(NaN), k2 |-> SomeF(NZ)], [k1 |-> SomeF(Fin(10)), k2 |-> SomeF(Fin(-1))]}
     [] f = "wk" -> GWK
-    [] f = "rw" -> {<<>>} \cup { <<w>> : w \in GWKp } \cup { <<WK(SomeT(5), SomeT(2)), w>> : w \in GWKp } \cup {<<WKu(SomeT(5), SomeT(2), 1), WK(SomeT(5), SomeT(2))>>}
+    [] f = "rw" -> {<<>>} \cup { <<w>> : w \in GWKp } \cup { <<WK(SomeT(5), SomeT(2)), w>> : w \in GWKp } \cup {<<WKu(SomeT(5), SomeT(2), <<1>>), WK(SomeT(5), SomeT(2))>>}
                    \cup {<<WK(SomeT(6), SomeT(1)), WK(SomeT(1), NoT)>>}
     [] f = "mw" -> GWK
-    [] f = "nn" -> {NoNN} \cup { [p |-> TRUE, a |-> a, fl |-> F0, ts |-> NoT, uk |-> 0] : a \in 0..1 }
-                   \cup { [p |-> TRUE, a |-> 0, fl |-> a, ts |-> NoT, uk |-> 0] : a \in {Fin(8), Fin(9), Fin(1), NZ, NaN} }
-                   \cup { [p |-> TRUE, a |-> 0, fl |-> Fin(8), ts |-> t, uk |-> 0] : t \in GOT }
-                   \cup { [p |-> TRUE, a |-> 0, fl |-> Fin(8), ts |-> SomeT(5), uk |-> k] : k \in 1..2 }
-                   \cup { [p |-> TRUE, a |-> 0, fl |-> F0, ts |-> NoT, uk |-> 1] }
+    [] f = "nn" -> {NoNN} \cup { [p |-> TRUE, a |-> a, fl |-> F0, ts |-> NoT, uk |-> <<>>] : a \in 0..1 }
+                   \cup { [p |-> TRUE, a |-> 0, fl |-> a, ts |-> NoT, uk |-> <<>>] : a \in {Fin(8), Fin(9), Fin(1), NZ, NaN} }
+                   \cup { [p |-> TRUE, a |-> 0, fl |-> Fin(8), ts |-> t, uk |-> <<>>] : t \in GOT }
+                   \cup { [p |-> TRUE, a |-> 0, fl |-> Fin(8), ts |-> SomeT(5), uk |-> k] : k \in {<<1>>, <<2>>, <<1, 2>>, <<3, 2>>, <<1, 3, 2>>, <<1, 1, 2>>} }
+                   \cup { [p |-> TRUE, a |-> 0, fl |-> F0, ts |-> NoT, uk |-> <<1>>] }
     [] f = "u"  -> {NoU, [k |-> 1, ui |-> 0, una |-> 0], [k |-> 1, ui |-> 2, una |-> 0],
                     [k |-> 2, ui |-> 0, una |-> 0], [k |-> 2, ui |-> 0, una |-> 1]}
-    [] f = "unk" -> {NoUnk, [a |-> 1, b |-> 0, swap |-> FALSE], [a |-> 2, b |-> 0, swap |-> FALSE], [a |-> 0, b |-> 1, swap |-> FALSE],
-                     [a |-> 1, b |-> 1, swap |-> FALSE], [a |-> 1, b |-> 1, swap |-> TRUE]}
-    [] f = "ch" -> LET C(nm, ct, on) == [nm |-> nm, ct |-> ct, on |-> on, uk |-> 0]
+    [] f = "unk" -> GUnk
+    [] f = "ch" -> LET C(nm, ct, on) == [nm |-> nm, ct |-> ct, on |-> on, uk |-> <<>>]
                        Cu(nm, ct, on, uk) == [nm |-> nm, ct |-> ct, on |-> on, uk |-> uk] IN
                    {<<>>, <<C(1, NoT, 1)>>, <<C(1, SomeT(5), 1)>>, <<C(1, SomeT(6), 1)>>, <<C(1, SomeT(12), 2)>>, <<C(0, SomeT(5), 0)>>,
                     <<C(1, SomeT(5), 1), C(0, SomeT(1), 2)>>, <<C(1, SomeT(2), 1), C(0, SomeT(6), 2)>>, <<C(1, SomeT(5), 1), C(0, NoT, 2)>>,
-                    <<Cu(1, SomeT(5), 1, 1)>>, <<Cu(1, SomeT(6), 1, 2)>>, <<C(1, SomeT(5), 1), Cu(0, SomeT(1), 2, 1)>>}
+                    <<Cu(1, SomeT(5), 1, <<1>>)>>, <<Cu(1, SomeT(6), 1, <<2>>)>>, <<C(1, SomeT(5), 1), Cu(0, SomeT(1), 2, <<1>>)>>,
+                    <<Cu(1, SomeT(5), 1, <<1, 2>>)>>, <<Cu(1, SomeT(5), 1, <<3, 2>>)>>, <<Cu(1, SomeT(5), 1, <<1, 11, 2>>)>>}
     [] f = "act" -> GOT
 
 \* every message one replacement away from a (incl. becoming another type)
@@ -341,10 +359,10 @@ RandAnc(z) == LET r == RandomElement(1..10) IN
 (* MC: laws of the reference semantics.                                    *)
 Dense == [ty |-> "T", i |-> 1, s |-> 1, fl |-> Fin(8), db |-> Fin(16), of |-> SomeF(F0), rd |-> <<Fin(8), Fin(16)>>,
           mf |-> [k1 |-> SomeF(Fin(8)), k2 |-> NoOF], wk |-> WK(SomeT(5), SomeT(2)), rw |-> <<WK(SomeT(5), SomeT(2))>>,
-          mw |-> WK(SomeT(5), NoT), nn |-> [p |-> TRUE, a |-> 0, fl |-> Fin(8), ts |-> SomeT(5), uk |-> 0],
-          u |-> [k |-> 1, ui |-> 2, una |-> 0], unk |-> [a |-> 1, b |-> 0, swap |-> FALSE], ch |-> <<>>, act |-> NoT]
+          mw |-> WK(SomeT(5), NoT), nn |-> [p |-> TRUE, a |-> 0, fl |-> Fin(8), ts |-> SomeT(5), uk |-> <<>>],
+          u |-> [k |-> 1, ui |-> 2, una |-> 0], unk |-> <<1, 2>>, ch |-> <<>>, act |-> NoT]
 Ancestors == {Empty("T"), Dense,
-              [Empty("P") EXCEPT !.ch = <<[nm |-> 1, ct |-> SomeT(5), on |-> 1, uk |-> 0], [nm |-> 0, ct |-> SomeT(1), on |-> 2, uk |-> 0]>>],
+              [Empty("P") EXCEPT !.ch = <<[nm |-> 1, ct |-> SomeT(5), on |-> 1, uk |-> <<>>], [nm |-> 0, ct |-> SomeT(1), on |-> 2, uk |-> <<>>]>>],
               [Empty("A") EXCEPT !.act = SomeT(5)],
               [Empty("S") EXCEPT !.fl = Fin(8), !.of = SomeF(Fin(1))]}
 Cm(k, a, b) == [k |-> k, a |-> a, b |-> b]
@@ -488,7 +506,7 @@ ExhaustiveCmp == UNION { { [k |-> "cmp", n |-> 0, x |-> a, y |-> y, cfg |-> NoCf
 SG(f) == CASE f = "fl" -> { Fin(v) : v \in {0, 2, 4, 6, 8, 10, 12, 16} }
            [] f = "db" -> { Fin(v) : v \in {0, 4, 8} }
            [] f = "rd" -> {<<>>, <<Fin(8)>>, <<Fin(10)>>, <<Fin(8), Fin(16)>>}
-           [] f = "wk" -> {NoWK, WK(SomeT(5), SomeT(2)), WK(SomeT(6), SomeT(2)), WK(SomeT(8), SomeT(4)), WK(SomeT(5), NoT), WKu(SomeT(5), SomeT(2), 1),
+           [] f = "wk" -> {NoWK, WK(SomeT(5), SomeT(2)), WK(SomeT(6), SomeT(2)), WK(SomeT(8), SomeT(4)), WK(SomeT(5), NoT), WKu(SomeT(5), SomeT(2), <<1>>), WKu(SomeT(5), SomeT(2), <<1, 2>>), WKu(SomeT(5), SomeT(2), <<3, 2>>),
                            WK(FarT(0, -1), SomeT(2)), WK(FarT(0, 2), SomeT(2))}
            [] OTHER    -> 0..1
 StreamCfgs == {<<T1(Cm("float", 0, 4))>>, <<T1(Cm("float", 0, 2))>>, <<T1(Cm("float", 2, 0))>>, <<T1(Cm("time", 1, 0))>>,
